@@ -269,6 +269,9 @@ FAMILIES["arrmeth"] = {
         ] + [
             {"kind": "fn", "name": "Array::" + f, "file": "src/algorithm/monadic/mod.rs", "impl": r"^impl<T: ArrayValue> Array<T> \{", "fn": f}
             for f in ["first_min_index", "first_max_index", "last_min_index", "last_max_index"]
+        ] + [
+            {"kind": "fn", "name": "Array::" + f, "file": "src/algorithm/monadic/sort.rs", "impl": r"^impl<T: ArrayValue> Array<T> \{", "fn": f}
+            for f in ["rise_indices", "fall_indices", "is_sorted_up", "is_sorted_down"]
         ]},
     ],
 }
